@@ -298,15 +298,18 @@ func C13_FutureRound() {
 		env.Reach("C13.future.committed_from_cache")
 		// the node is at height 3 now: a proposal of height 3 is answered by the term of height 3
 		if n.m.state.Height() == 3 && me != 0 {
-			agg2 := stub.GroupSeedSig(2, randomseed.RandomSeedToBytes(randomseed.CalculateRandomSeed(agg1)))
-			net3 := newVNet(wd.reg, wd.net.committee, vInstance, (&protocol.BlockProofBuilder{RandomSeedSignature: agg2}).Build().Raw())
+			net3 := newVNet(wd.reg, wd.net.committee, vInstance, n.commits[1].proof)
 			out := len(n.comm.Out)
 			ev := len(n.st.Events)
-			n.deliver(net3.ppm(0, 3, 0, &stub.Block{H: 3, Tag: 0x25, ProposalOK: true}).ToConsensusRawMessage())
+			b3 := &stub.Block{H: 3, Tag: 0x25, ProposalOK: true}
+			roundWith(n, me, net3, 3, b3)
 			env.Assert("C17.next_height_message_handled_by_its_term", len(n.comm.Out) > out)
 			for _, e := range n.st.Events[ev:] {
 				env.Assert("C17.only_own_height", e.Msg.BlockHeight() == e.StateHeight)
 			}
+			// ... by the term of height 3, which can commit it (a left-over term of height 2 answers but never commits)
+			env.Assert("C17.next_height_commits", len(n.commits) == 3 && n.commits[2].block != nil && n.commits[2].block.H == 3)
+			env.Assert("C13.commit_cb_increasing", len(n.commits) == 3 && n.commits[2].block != nil && n.commits[2].block.H == 3)
 			wd.checkHeightIsAnnouncedRound()
 		}
 	}
